@@ -252,7 +252,7 @@ def kw_mutants(ctx, cls, args, kw, rng):
                 m = dict(kw); m[other] = v; out.append(("two-of-group", "reject", args, m))
                 if kind == "req":
                     m = dict(kw); del m[have[0]]; out.append(("none-of-required-group", "reject", args, m))
-                    # recorded finding: the keyword route counts "" as a present member, which then converts to None
+                    # fixed finding (2370ade): the keyword route counted "" as a present member, which then converts to None
                     if not isinstance(spec[have[0]], T.SubAggregate) and type(spec[have[0]]) in (T.String, T.NagString, T.OneOf, T.Integer):
                         m = dict(kw); m[have[0]] = ""; out.append(("empty-string-group-member", "reject", args, m))
     return out
@@ -294,15 +294,14 @@ def run(rep, tier, rng):
                 rep.count(c, kind="kw:%s:%s" % (name, out[0]))
                 stats[name] = stats.get(name, 0) + 1
                 if expect == "reject" and out[0] == "ok":
-                    if name == "empty-string-group-member":
+                    if name == "empty-string-group-member":      # fixed finding (2370ade), watched under its own key
                         clauses = validate(ctx, out[1])
-                        if clauses:
-                            rep.failures.append(C.Failure("kw:empty-string-counts-as-group-member", "%s(%s=''): the keyword route counts '' as a present group member, the value converts to None and the instance has none of its required group (%s)" % (cls.__name__, [k for k, v in k2.items() if v == ''][0], clauses[0]), desc))
+                        rep.failures.append(C.Failure("kw:empty-string-counts-as-group-member", "%s(%s=''): the keyword route counts '' as a present group member, the value converts to None and the instance has none of its required group (%s)" % (cls.__name__, [k for k, v in k2.items() if v == ''][0], clauses[:1]), desc))
                         continue
                     rep.failures.append(C.Failure("kw:%s:accepted" % name, "%s: keyword construction with mutation %s is accepted instead of rejected" % (cls.__name__, name), desc))
                 elif expect == "accept" and out[0] != "ok":
                     rep.failures.append(C.Failure("kw:%s:rejected" % name, "%s: a value exactly at its limit (%s) is rejected: %s" % (cls.__name__, name, out[1]), desc))
-                if out[0] == "ok" and name != "empty-string-group-member":
+                if out[0] == "ok":
                     check_instance(out[1], "kw:" + name, desc)
             # ---------------- tree route
             try:
@@ -359,6 +358,19 @@ def run(rep, tier, rng):
             stats["duplicate-renamed-child"] = stats.get("duplicate-renamed-child", 0) + 1
             if out[0] == "ok":
                 rep.failures.append(C.Failure("tree:duplicate-renamed-child:accepted", "%s: document with a repeated <%s> is converted instead of rejected" % (cls.__name__, wire_tag), desc))
+    # the converter hypotheses of construct_sound_any_kw, on every REAL element converter: "" never converts to a value, and is refused
+    # where the element is required
+    for cls in ctx.concrete:
+        for k, t in cls.spec.items():
+            if isinstance(t, (ctx.Types.Unsupported, ctx.Types.SubAggregate)) or not isinstance(t, ctx.Types.Element):
+                continue
+            conv = t.converter if isinstance(t, ctx.Types.ListElement) else t
+            o = H.outcome(conv.convert, "")
+            stats["converter-on-empty-string"] = stats.get("converter-on-empty-string", 0) + 1
+            if o[0] == "ok" and o[1] is not None:
+                rep.broken.append("hypothesis conv_empty_never_value not met by %s.%s: convert('') = %r" % (cls.__name__, k, o[1]))
+            if o[0] == "ok" and o[1] is None and getattr(conv, "required", False):
+                rep.broken.append("hypothesis conv_required_refuses_empty not met by %s.%s: a required element converts '' to None" % (cls.__name__, k))
     rep.extra["mutations_applied"] = stats
     for m in [x for x in meta if x.get("mutation") not in (None, "none")][:4]:
         rep.sample(m)
